@@ -449,6 +449,17 @@ func (rf *RecFacts) shapeKey() string {
 	return "record:" + rf.Spec.Name
 }
 
+// whereLazy defers the (costly) rendering of a generated-code position: the
+// text is only needed for failing obligations, which core.Ctx keeps.
+func (rf *RecFacts) whereLazy(pos token.Pos) lazyWhere { return lazyWhere{rf, pos} }
+
+type lazyWhere struct {
+	rf  *RecFacts
+	pos token.Pos
+}
+
+func (l lazyWhere) String() string { return l.rf.where(l.pos) }
+
 func (rf *RecFacts) where(pos token.Pos) string {
 	return fmt.Sprintf("generated %s %s under options %s: %s", kindName(rf.Spec.Kind), rf.shapeKey(), rf.GF.Opts, rf.GF.Line(pos))
 }
